@@ -2066,6 +2066,15 @@ class BaseInterpreter(Generic[TContext, TEvent]):
                     return [resolved]
             if parent.initial and parent.initial in parent.states:
                 return [parent.states[parent.initial]]
+            if parent.type == "parallel":
+                # 🌐 A parallel parent has no `initial`; its normal entry is
+                #    every region. Returning nothing here left the machine
+                #    with only its root active.
+                return [
+                    child
+                    for child in parent.states.values()
+                    if child.type != "history"
+                ]
             return []
 
         if history_node.history == "deep":
